@@ -1140,15 +1140,23 @@ def EvIn (ts : List Tok) (c c' : Nat) (ev : Ev α) : Prop :=
 def CompRet (off : Nat) (w : List Char) (ts : List Tok) (c c' : Nat) (r : Option (Ev α)) : Prop :=
   OptOK (fun ev => EvSpansOK off w ev ∧ EvIn ts c c' ev) r
 
-theorem ingredientP_ev (hc : Ctx off w Pv ts) (h : GE Pv ts e s) :
+/-- the returned component event spans EXACTLY the bytes between the cursor before and the cursor
+    after (used by the coverage theorems of C05) -/
+def EvAt (ts : List Tok) (c c' : Nat) (r : Option (Ev α)) : Prop :=
+  ∀ ev, r = some ev → ev.srcSpan = some ⟨offAt ts c, offAt ts c'⟩
+
+theorem EvAt.none {ts : List Tok} {c c' : Nat} : EvAt (α := α) ts c c' Option.none := by
+  intro ev h; cases h
+
+theorem ingredientP_evx (hc : Ctx off w Pv ts) (h : GE Pv ts e s) :
     Sat (ingredientP (α := α)) s (fun r s' => GE Pv ts e s' ∧ (r.isSome = true → s.cur < s'.cur) ∧
-      CompRet off w ts s.cur s'.cur r) := by
+      CompRet off w ts s.cur s'.cur r ∧ EvAt ts s.cur s'.cur r) := by
   unfold ingredientP
   refine Sat.bind (currentOffset_sat h.g ?_)
   refine Sat.bind (Sat.mono (consumeK_ge _ h) ?_)
   rintro r1 s1 ⟨g1, h1⟩
   cases r1 with
-  | none => exact Sat.pure ⟨g1, by simp, trivial⟩
+  | none => exact Sat.pure ⟨g1, by simp, trivial, EvAt.none⟩
   | some m =>
     obtain ⟨-, -, c1⟩ := h1
     refine Sat.bind (currentOffset_sat g1.g ?_)
@@ -1159,7 +1167,7 @@ theorem ingredientP_ev (hc : Ctx off w Pv ts) (h : GE Pv ts e s) :
     refine Sat.bind (Sat.mono (compBody_ev hc g2) ?_)
     rintro r3 s3 ⟨g3, h3⟩
     cases r3 with
-    | none => exact Sat.pure ⟨g3, by simp, trivial⟩
+    | none => exact Sat.pure ⟨g3, by simp, trivial, EvAt.none⟩
     | some body =>
       obtain ⟨c3, hname, hq, -⟩ := h3
       refine Sat.bind (Sat.mono (noteP_ev hc g3) ?_)
@@ -1182,22 +1190,33 @@ theorem ingredientP_ev (hc : Ctx off w Pv ts) (h : GE Pv ts e s) :
         · exact Sat.pure ⟨g7, rfl, trivial⟩
       rintro quantity s8 ⟨g8, c8, hqo⟩
       have hcur : s8.cur = s4.cur := by omega
-      refine Sat.pure ⟨g8, fun _ => by omega, ⟨?_, hfsp, hint, hnm, hal, hqo, hnote⟩, ?_⟩
+      refine Sat.pure ⟨g8, fun _ => by omega, ⟨⟨?_, hfsp, hint, hnm, hal, hqo, hnote⟩, ?_⟩, ?_⟩
       · exact hc.wfi.span (by omega)
       · intro sp hsp
         simp only [Ev.srcSpan, Option.some.injEq] at hsp
         subst hsp
         exact ⟨Nat.le_refl _, hc.wfi.offAt_mono (by omega)⟩
+      · intro ev hev
+        simp only [Option.some.injEq] at hev
+        subst hev
+        show some _ = some _
+        rw [hcur]
 
-theorem cookwareP_ev (hc : Ctx off w Pv ts) (h : GE Pv ts e s) :
+theorem ingredientP_ev (hc : Ctx off w Pv ts) (h : GE Pv ts e s) :
+    Sat (ingredientP (α := α)) s (fun r s' => GE Pv ts e s' ∧ (r.isSome = true → s.cur < s'.cur) ∧
+      CompRet off w ts s.cur s'.cur r) :=
+  Sat.mono (ingredientP_evx hc h) (fun _ _ h => ⟨h.1, h.2.1, h.2.2.1⟩)
+
+
+theorem cookwareP_evx (hc : Ctx off w Pv ts) (h : GE Pv ts e s) :
     Sat (cookwareP (α := α)) s (fun r s' => GE Pv ts e s' ∧ (r.isSome = true → s.cur < s'.cur) ∧
-      CompRet off w ts s.cur s'.cur r) := by
+      CompRet off w ts s.cur s'.cur r ∧ EvAt ts s.cur s'.cur r) := by
   unfold cookwareP
   refine Sat.bind (currentOffset_sat h.g ?_)
   refine Sat.bind (Sat.mono (consumeK_ge _ h) ?_)
   rintro r1 s1 ⟨g1, h1⟩
   cases r1 with
-  | none => exact Sat.pure ⟨g1, by simp, trivial⟩
+  | none => exact Sat.pure ⟨g1, by simp, trivial, EvAt.none⟩
   | some m =>
     obtain ⟨-, -, c1⟩ := h1
     refine Sat.bind (currentOffset_sat g1.g ?_)
@@ -1208,7 +1227,7 @@ theorem cookwareP_ev (hc : Ctx off w Pv ts) (h : GE Pv ts e s) :
     refine Sat.bind (Sat.mono (compBody_ev hc g2) ?_)
     rintro r3 s3 ⟨g3, h3⟩
     cases r3 with
-    | none => exact Sat.pure ⟨g3, by simp, trivial⟩
+    | none => exact Sat.pure ⟨g3, by simp, trivial, EvAt.none⟩
     | some body =>
       obtain ⟨c3, hname, hq, -⟩ := h3
       refine Sat.bind (Sat.mono (noteP_ev hc g3) ?_)
@@ -1249,14 +1268,20 @@ theorem cookwareP_ev (hc : Ctx off w Pv ts) (h : GE Pv ts e s) :
           Sat (pure (some (Ev.cookware ⟨⟨pm.flags, name, alias, quantity, note⟩,
               ⟨offAt ts s.cur, offAt ts s4.cur⟩⟩)) : P α (Option (Ev α))) s9
             (fun r s' => GE Pv ts e s' ∧ (r.isSome = true → s.cur < s'.cur) ∧
-              CompRet off w ts s.cur s'.cur r) := by
+              CompRet off w ts s.cur s'.cur r ∧ EvAt ts s.cur s'.cur r) := by
         intro s9 g9 c9
-        refine Sat.pure ⟨g9, fun _ => by omega, ⟨?_, hfsp, hnm, hal, hqo, hnote⟩, ?_⟩
+        have hcur : s9.cur = s4.cur := by omega
+        refine Sat.pure ⟨g9, fun _ => by omega, ⟨⟨?_, hfsp, hnm, hal, hqo, hnote⟩, ?_⟩, ?_⟩
         · exact hc.wfi.span (by omega)
         · intro sp hsp
           simp only [Ev.srcSpan, Option.some.injEq] at hsp
           subst hsp
           exact ⟨Nat.le_refl _, hc.wfi.offAt_mono (by omega)⟩
+        · intro ev hev
+          simp only [Option.some.injEq] at hev
+          subst hev
+          show some _ = some _
+          rw [hcur]
       have hrcp : ∀ s9 : BP α, GE Pv ts e s9 → s9.cur = s8.cur →
           Sat (do
             if pm.flags.val.contains Modifiers.RECIPE then
@@ -1266,7 +1291,7 @@ theorem cookwareP_ev (hc : Ctx off w Pv ts) (h : GE Pv ts e s) :
             return some (Ev.cookware ⟨⟨pm.flags, name, alias, quantity, note⟩,
               ⟨offAt ts s.cur, offAt ts s4.cur⟩⟩) : P α (Option (Ev α))) s9
             (fun r s' => GE Pv ts e s' ∧ (r.isSome = true → s.cur < s'.cur) ∧
-              CompRet off w ts s.cur s'.cur r) := by
+              CompRet off w ts s.cur s'.cur r ∧ EvAt ts s.cur s'.cur r) := by
         intro s9 g9 c9
         split
         · rename_i hcc
@@ -1287,6 +1312,11 @@ theorem cookwareP_ev (hc : Ctx off w Pv ts) (h : GE Pv ts e s) :
         have := hint
         rw [hd] at this; exact this
       · exact Sat.bind (Sat.pure (hrcp _ g8 rfl))
+
+theorem cookwareP_ev (hc : Ctx off w Pv ts) (h : GE Pv ts e s) :
+    Sat (cookwareP (α := α)) s (fun r s' => GE Pv ts e s' ∧ (r.isSome = true → s.cur < s'.cur) ∧
+      CompRet off w ts s.cur s'.cur r) :=
+  Sat.mono (cookwareP_evx hc h) (fun _ _ h => ⟨h.1, h.2.1, h.2.2.1⟩)
 
 theorem sepToEnd_aux (a b : List Tok) (t : Tok) :
     ((a ++ t :: b).getLast?.getD t).stop = lastStop t.stop b := by
@@ -1319,15 +1349,15 @@ theorem recoverPQuantity_ok (hz : Boundary off w 0) : LocQOK off w (recoverPQuan
 
 /-- `timer`.  `hz`: position 0 is a boundary of the text (the spans of the recovered quantity the
     parser substitutes for a missing one are the documented `(0, 0)`) -/
-theorem timerP_ev (hc : Ctx off w Pv ts) (hz : Boundary off w 0) (h : GE Pv ts e s) :
+theorem timerP_evx (hc : Ctx off w Pv ts) (hz : Boundary off w 0) (h : GE Pv ts e s) :
     Sat (timerP (α := α)) s (fun r s' => GE Pv ts e s' ∧ (r.isSome = true → s.cur < s'.cur) ∧
-      CompRet off w ts s.cur s'.cur r) := by
+      CompRet off w ts s.cur s'.cur r ∧ EvAt ts s.cur s'.cur r) := by
   unfold timerP
   refine Sat.bind (currentOffset_sat h.g ?_)
   refine Sat.bind (Sat.mono (consumeK_ge _ h) ?_)
   rintro r1 s1 ⟨g1, h1⟩
   cases r1 with
-  | none => exact Sat.pure ⟨g1, by simp, trivial⟩
+  | none => exact Sat.pure ⟨g1, by simp, trivial, EvAt.none⟩
   | some m =>
     obtain ⟨-, -, c1⟩ := h1
     refine Sat.bind (Sat.mono (modifiersP_ev g1) ?_)
@@ -1337,7 +1367,7 @@ theorem timerP_ev (hc : Ctx off w Pv ts) (hz : Boundary off w 0) (h : GE Pv ts e
     refine Sat.bind (Sat.mono (compBody_ev hc g2) ?_)
     rintro r3 s3 ⟨g3, h3⟩
     cases r3 with
-    | none => exact Sat.pure ⟨g3, by simp, trivial⟩
+    | none => exact Sat.pure ⟨g3, by simp, trivial, EvAt.none⟩
     | some body =>
       obtain ⟨c3, hname, hq, hclose⟩ := h3
       refine Sat.bind (currentOffset_sat g3.g ?_)
@@ -1347,7 +1377,7 @@ theorem timerP_ev (hc : Ctx off w Pv ts) (hz : Boundary off w 0) (h : GE Pv ts e
       extract_lets +onlyGivenNames -underBinder jp1
       have hjp1 : ∀ (r : Unit) (s4 : BP α), GE Pv ts e s4 → s4.cur = s3.cur → Sat (jp1 r) s4
           (fun r s' => GE Pv ts e s' ∧ (r.isSome = true → s.cur < s'.cur) ∧
-            CompRet off w ts s.cur s'.cur r) := by
+            CompRet off w ts s.cur s'.cur r ∧ EvAt ts s.cur s'.cur r) := by
         intro r s4 g4 c4
         simp -zeta only [jp1]
         refine Sat.bind (hasExt_sat g4.g ?_)
@@ -1355,7 +1385,7 @@ theorem timerP_ev (hc : Ctx off w Pv ts) (hz : Boundary off w 0) (h : GE Pv ts e
         extract_lets +onlyGivenNames -underBinder jp2
         have hjp2 : ∀ (r : Unit) (s5 : BP α), GE Pv ts e s5 → s5.cur = s3.cur → Sat (jp2 r) s5
             (fun r s' => GE Pv ts e s' ∧ (r.isSome = true → s.cur < s'.cur) ∧
-              CompRet off w ts s.cur s'.cur r) := by
+              CompRet off w ts s.cur s'.cur r ∧ EvAt ts s.cur s'.cur r) := by
           intro r s5 g5 c5
           simp -zeta only [jp2]
           refine Sat.bind (Sat.mono (checkNoteTimer_ev hc g5) ?_)
@@ -1383,7 +1413,7 @@ theorem timerP_ev (hc : Ctx off w Pv ts) (hz : Boundary off w 0) (h : GE Pv ts e
           have hjp3 : ∀ (r : Unit) (qo : Option (Loc (PQuantity α))) (s8 : BP α), GE Pv ts e s8 →
               s8.cur = s3.cur → OptOK (LocQOK off w) qo → Sat (jp3 r qo) s8
               (fun r s' => GE Pv ts e s' ∧ (r.isSome = true → s.cur < s'.cur) ∧
-                CompRet off w ts s.cur s'.cur r) := by
+                CompRet off w ts s.cur s'.cur r ∧ EvAt ts s.cur s'.cur r) := by
             intro r qo s8 g8 c8 hqo8
             simp -zeta only [jp3]
             try simp -zeta only
@@ -1396,15 +1426,20 @@ theorem timerP_ev (hc : Ctx off w Pv ts) (hz : Boundary off w 0) (h : GE Pv ts e
             have hjp4 : ∀ (r : Unit) (qo : Option (Loc (PQuantity α))) (s9 : BP α), GE Pv ts e s9 →
                 s9.cur = s3.cur → OptOK (LocQOK off w) qo → Sat (jp4 r qo) s9
                 (fun r s' => GE Pv ts e s' ∧ (r.isSome = true → s.cur < s'.cur) ∧
-                  CompRet off w ts s.cur s'.cur r) := by
+                  CompRet off w ts s.cur s'.cur r ∧ EvAt ts s.cur s'.cur r) := by
               intro r qo s9 g9 c9 hqo9
               simp -zeta only [jp4]
-              refine Sat.pure ⟨g9, fun _ => by omega, ⟨?_, hnO, hqo9⟩, ?_⟩
+              refine Sat.pure ⟨g9, fun _ => by omega, ⟨⟨?_, hnO, hqo9⟩, ?_⟩, ?_⟩
               · exact hc.wfi.span (by omega)
               · intro sp hsp
                 simp only [Ev.srcSpan, Option.some.injEq] at hsp
                 subst hsp
                 exact ⟨Nat.le_refl _, hc.wfi.offAt_mono (by omega)⟩
+              · intro ev hev
+                simp only [Option.some.injEq] at hev
+                subst hev
+                show some _ = some _
+                rw [c9]
             clear_value jp4 nameO
             split
             · dsimp only
@@ -1445,6 +1480,11 @@ theorem timerP_ev (hc : Ctx off w Pv ts) (hz : Boundary off w 0) (h : GE Pv ts e
         refine Sat.bind (Sat.perrE ?_)
         exact hjp1 _ _ (g3.err hc (one_label (hrm.tokensSpan hne'))) rfl
       · exact hjp1 _ _ g3 rfl
+
+theorem timerP_ev (hc : Ctx off w Pv ts) (hz : Boundary off w 0) (h : GE Pv ts e s) :
+    Sat (timerP (α := α)) s (fun r s' => GE Pv ts e s' ∧ (r.isSome = true → s.cur < s'.cur) ∧
+      CompRet off w ts s.cur s'.cur r) :=
+  Sat.mono (timerP_evx hc hz h) (fun _ _ h => ⟨h.1, h.2.1, h.2.2.1⟩)
 
 /-! ### Steps and blocks: all spans fine, content events in source order -/
 
